@@ -343,6 +343,23 @@ impl Property for C02 {
             Tier::Quick => 10,
             Tier::Thorough => 10,
         };
+        if tape.chance(1, 12) {
+            // a long run of operators of one level (40..160 of them) between plain names
+            let level = 1 + tape.choice(5) as u32;
+            let same: Vec<usize> = (0..OPS.len()).filter(|i| OPS[*i].1 == level && OPS[*i].0 != "~" && OPS[*i].0 != "!~").collect();
+            let n = 40 + tape.choice(121);
+            let ops: Vec<usize> = (0..n).map(|_| same[tape.choice(same.len())]).collect();
+            let plain: Vec<T> = (0..=n).map(|i| sym(&format!("v{}", i))).collect();
+            let mut src = String::new();
+            for i in 0..=n {
+                if i > 0 {
+                    src.push_str(&format!(" {} ", OPS[ops[i - 1]].0));
+                }
+                src.push_str(&format!("v{}", i));
+            }
+            let want = expected(&group(&plain, &ops));
+            return self.check(&src, &want, n, "long-run-of-one-level", false);
+        }
         let mode = tape.choice(3);
         if mode == 0 {
             // flat chain with compound operands, reference = split model
